@@ -13,6 +13,9 @@ pub struct Sym {
     /// (tree mask, edge e not in tree, m_e^2): monomials x_e^2 * prod_{e' not in T, e'!=e} x_e'
     pub mass_sq_terms: Vec<(usize, usize, f64)>,
     pub masses2: Vec<f64>,
+    /// true if some 2-forest separates the external vertices (momentum must flow between the two trees) although
+    /// the momentum actually flowing is (numerically) zero: non-generic kinematics
+    pub degenerate_momenta: bool,
 }
 
 fn compress(g: &G) -> (Vec<(usize, usize)>, usize, Vec<usize>) {
@@ -55,6 +58,8 @@ impl Sym {
         let mut trees = vec![];
         let mut forests = vec![];
         let mut mass_sq_terms = vec![];
+        let mut degenerate_momenta = false;
+        let pscale: f64 = ext.iter().map(|(_, p)| p.iter().map(|a| a * a).sum::<f64>()).fold(0.0, f64::max);
         for m in 0..=full {
             let k = (m as u64).count_ones() as usize;
             if k + ncomp0 != nv && k + ncomp0 + 1 != nv {
@@ -114,6 +119,9 @@ impl Sym {
                         }
                     }
                     c = qv.iter().map(|a| a * a).sum();
+                    if !(c > 1e-20 * pscale) {
+                        degenerate_momenta = true;
+                    }
                 }
                 // mass terms merged: edges joining the two parts
                 for e in 0..ne {
@@ -125,7 +133,7 @@ impl Sym {
                 forests.push((m, c));
             }
         }
-        Sym { ne, nl, trees, forests, mass_sq_terms, masses2 }
+        Sym { ne, nl, trees, forests, mass_sq_terms, masses2, degenerate_momenta }
     }
     #[inline]
     fn mono(&self, kept: usize, x: &[f64]) -> f64 {
